@@ -40,6 +40,14 @@ def prepare(R):
         R.oblige(t, "theorem", okt, detail)
         if not okt:
             ctx.broken.append((t, detail))
+    # (5) thorough tier: the toolchain's independent re-checker replays the property's compiled modules through the kernel
+    if R.tier == "thorough" and ok and mods:
+        rc, so, se, ldt = core.run(["lake", "env", "leanchecker"] + list(mods), cwd=core.LEAN, timeout=3600)
+        R.checker_cmds.append("cd /verif/lean && lake env leanchecker " + " ".join(mods))
+        R.extra["leanchecker_s"] = round(ldt, 1)
+        R.oblige("leanchecker re-checks " + ",".join(mods), "recheck", rc == 0, (so + se)[-400:])
+        if rc != 0:
+            ctx.broken.append(("leanchecker", (so + se)[-400:]))
     if not ok and not ctx.broken:
         ctx.broken.append(("lake build", "failed modules: " + ", ".join(failed) + " :: " + log[-600:]))
         R.oblige("lake build", "build", False, log[-600:])
